@@ -45,6 +45,13 @@ func (w *World) verifyFunc(fn *ssa.Function, c *FuncContract) (x *Exec, err erro
 	x.sc.Decl("alloc_init", "(declare-const alloc_init (Array Int Bool))\n(assert (select alloc_init 0))")
 	st.alloc = Term{"alloc_init", ArraySort(SInt, SBool)}
 	st.ghost["eg_err"] = Term{"((as const (Array Int Iface)) inil)", ArraySort(SInt, SIface)}
+	st.ghost["session_err"] = x.sc.Fresh("session_err", SIface)
+	st.ghost["n_session_get"], st.ghost["n_session_set"], st.ghost["n_redirect"] = IntConst(0), IntConst(0), IntConst(0)
+	st.ghost["redirect_code"] = bv64(0)
+	st.ghost["redirect_url"] = x.strLit("")
+	st.ghost["http_error_code"] = bv64(0)
+	st.ghost["ctc_equal"] = TFalse
+	st.ghost["ctc_b"] = nilSlice
 	x.initGhost(st)
 	fr := x.newFrame(fn, false)
 	fr.c = c
